@@ -52,7 +52,8 @@ def build_harness():
     if not os.path.exists(lock):
         shutil.copy(os.path.join(REPO, "Cargo.lock"), lock)
     t0 = time.time()
-    env = {"CARGO_NET_OFFLINE": "true"}
+    # the binary the checks run is HARNESS/target/release/nvx: do not let an inherited target dir redirect the build
+    env = {"CARGO_NET_OFFLINE": "true", "CARGO_TARGET_DIR": os.path.join(HARNESS, "target")}
     import fcntl
     os.makedirs(WORK, exist_ok=True)
     with open(os.path.join(WORK, ".build.lock"), "w") as lf:
